@@ -1,4 +1,86 @@
 From GM Require Import Base.Prelude Base.Outcome Codec.Prim Codec.Packets Codec.Steps Codec.ImplEncode
-  Codec.SpecDecodeC2S Codec.ValidC2S Properties.C02.
+  Codec.SpecDecodeC2S Codec.ValidC2S CodecProofs.EncPrim CodecProofs.EncFrag CodecProofs.EncAck
+  CodecProofs.EncDisc CodecProofs.EncSub CodecProofs.EncPub CodecProofs.EncCon Properties.C02.
 Open Scope N_scope.
-Print Assumptions C02_example.
+Check C02_fragmentation : forall steps fill cap out rest,
+  fill <= cap -> 4 <= cap -> encode_call steps fill cap = Ok (out, rest) ->
+  flatten steps = then_rest out rest /\ fill + len out <= cap.
+Check C02_fragmentation_ok : forall steps fill cap out rest r',
+  fill <= cap -> 4 <= cap -> encode_call steps fill cap = Ok (out, rest) -> flatten rest = Ok r' ->
+  flatten steps = Ok (out ++ r').
+Check C02_fragmentation_progress : forall steps fill cap out rest,
+  fill + 4 <= cap -> steps <> [] -> encode_call steps fill cap = Ok (out, rest) ->
+  out <> [] \/ (length rest < length steps)%nat.
+Check C02_fragmentation_any_sequence : forall steps bs, enc_run steps bs -> flatten steps = Ok bs.
+Check C02_fragmentation_driver_loop : forall fuel steps bufs last bs,
+  encode_seq fuel steps bufs last = Ok (Some bs) -> flatten steps = Ok bs.
+Check C02_unfragmented : forall steps bs fill cap,
+  flatten steps = Ok bs -> 4 <= cap -> fill + len bs + 4 <= cap -> encode_call steps fill cap = Ok (bs, []).
+Check C02_Pingreq : forall v r,
+  exists bs, impl_encode_all v Pingreq r = Ok bs /\ spec_decode v bs = Some (canon v r Pingreq, []).
+Check C02_Puback_V5 : forall a r, valid V5 r (Puback a) = true ->
+  exists bs, impl_encode_all V5 (Puback a) r = Ok bs /\ spec_decode V5 bs = Some (canon V5 r (Puback a), []).
+Check C02_Pubrec_V5 : forall a r, valid V5 r (Pubrec a) = true ->
+  exists bs, impl_encode_all V5 (Pubrec a) r = Ok bs /\ spec_decode V5 bs = Some (canon V5 r (Pubrec a), []).
+Check C02_Pubrel_V5 : forall a r, valid V5 r (Pubrel a) = true ->
+  exists bs, impl_encode_all V5 (Pubrel a) r = Ok bs /\ spec_decode V5 bs = Some (canon V5 r (Pubrel a), []).
+Check C02_Pubcomp_V5 : forall a r, valid V5 r (Pubcomp a) = true ->
+  exists bs, impl_encode_all V5 (Pubcomp a) r = Ok bs /\ spec_decode V5 bs = Some (canon V5 r (Pubcomp a), []).
+Check C02_Puback_V311 : forall a r, valid V311 r (Puback a) = true ->
+  exists bs, impl_encode_all V311 (Puback a) r = Ok bs /\ spec_decode V311 bs = Some (canon V311 r (Puback a), []).
+Check C02_Pubrec_V311 : forall a r, valid V311 r (Pubrec a) = true ->
+  exists bs, impl_encode_all V311 (Pubrec a) r = Ok bs /\ spec_decode V311 bs = Some (canon V311 r (Pubrec a), []).
+Check C02_Pubrel_V311 : forall a r, valid V311 r (Pubrel a) = true ->
+  exists bs, impl_encode_all V311 (Pubrel a) r = Ok bs /\ spec_decode V311 bs = Some (canon V311 r (Pubrel a), []).
+Check C02_Pubcomp_V311 : forall a r, valid V311 r (Pubcomp a) = true ->
+  exists bs, impl_encode_all V311 (Pubcomp a) r = Ok bs /\ spec_decode V311 bs = Some (canon V311 r (Pubcomp a), []).
+Check C02_Disconnect_V5 : forall d r, valid V5 r (Disconnect d) = true ->
+  exists bs, impl_encode_all V5 (Disconnect d) r = Ok bs /\ spec_decode V5 bs = Some (canon V5 r (Disconnect d), []).
+Check C02_Disconnect_V311 : forall d r,
+  exists bs, impl_encode_all V311 (Disconnect d) r = Ok bs /\ spec_decode V311 bs = Some (canon V311 r (Disconnect d), []).
+Check C02_Auth_V5 : forall a r, valid V5 r (Auth a) = true ->
+  exists bs, impl_encode_all V5 (Auth a) r = Ok bs /\ spec_decode V5 bs = Some (canon V5 r (Auth a), []).
+Check C02_Auth_V311_refused : forall a r, impl_encode_all V311 (Auth a) r = Err EEncodingFailure.
+Check C02_Unsubscribe_V5 : forall u r, valid V5 r (Unsubscribe u) = true ->
+  exists bs, impl_encode_all V5 (Unsubscribe u) r = Ok bs /\ spec_decode V5 bs = Some (canon V5 r (Unsubscribe u), []).
+Check C02_Unsubscribe_V311 : forall u r, valid V311 r (Unsubscribe u) = true ->
+  exists bs, impl_encode_all V311 (Unsubscribe u) r = Ok bs /\ spec_decode V311 bs = Some (canon V311 r (Unsubscribe u), []).
+Check C02_Subscribe_V5 : forall s r, valid V5 r (Subscribe s) = true ->
+  exists bs, impl_encode_all V5 (Subscribe s) r = Ok bs /\ spec_decode V5 bs = Some (canon V5 r (Subscribe s), []).
+Check C02_Subscribe_V311 : forall s r, valid V311 r (Subscribe s) = true ->
+  exists bs, impl_encode_all V311 (Subscribe s) r = Ok bs /\ spec_decode V311 bs = Some (canon V311 r (Subscribe s), []).
+Check C02_Publish_V5 : forall p r, valid V5 r (Publish p) = true ->
+  exists bs, impl_encode_all V5 (Publish p) r = Ok bs /\ spec_decode V5 bs = Some (canon V5 r (Publish p), []).
+Check C02_Publish_V311 : forall p r, valid V311 r (Publish p) = true ->
+  exists bs, impl_encode_all V311 (Publish p) r = Ok bs /\ spec_decode V311 bs = Some (canon V311 r (Publish p), []).
+Check C02_Connect_V5 : forall c r, valid V5 r (Connect c) = true ->
+  exists bs, impl_encode_all V5 (Connect c) r = Ok bs /\ spec_decode V5 bs = Some (canon V5 r (Connect c), []).
+Check C02_Connect_V311 : forall c r, valid V311 r (Connect c) = true ->
+  exists bs, impl_encode_all V311 (Connect c) r = Ok bs /\ spec_decode V311 bs = Some (canon V311 r (Connect c), []).
+Print Assumptions C02_fragmentation.
+Print Assumptions C02_fragmentation_ok.
+Print Assumptions C02_fragmentation_progress.
+Print Assumptions C02_fragmentation_any_sequence.
+Print Assumptions C02_fragmentation_driver_loop.
+Print Assumptions C02_unfragmented.
+Print Assumptions C02_Pingreq.
+Print Assumptions C02_Puback_V5.
+Print Assumptions C02_Pubrec_V5.
+Print Assumptions C02_Pubrel_V5.
+Print Assumptions C02_Pubcomp_V5.
+Print Assumptions C02_Puback_V311.
+Print Assumptions C02_Pubrec_V311.
+Print Assumptions C02_Pubrel_V311.
+Print Assumptions C02_Pubcomp_V311.
+Print Assumptions C02_Disconnect_V5.
+Print Assumptions C02_Disconnect_V311.
+Print Assumptions C02_Auth_V5.
+Print Assumptions C02_Auth_V311_refused.
+Print Assumptions C02_Unsubscribe_V5.
+Print Assumptions C02_Unsubscribe_V311.
+Print Assumptions C02_Subscribe_V5.
+Print Assumptions C02_Subscribe_V311.
+Print Assumptions C02_Publish_V5.
+Print Assumptions C02_Publish_V311.
+Print Assumptions C02_Connect_V5.
+Print Assumptions C02_Connect_V311.
